@@ -1,4 +1,6 @@
 import WebrtcVerif.Base.Wire
+import WebrtcVerif.Drv.C26
+import WebrtcVerif.Drv.C15
 import WebrtcVerif.Drv.C32
 import WebrtcVerif.Drv.C35
 import WebrtcVerif.Drv.C17
@@ -40,6 +42,8 @@ def runLine (toks : List String) : String :=
   | "C17" :: rest => Drv.C17.run rest
   | "C35" :: rest => Drv.C35.run rest
   | "C32" :: rest => Drv.C32.run rest
+  | "C15" :: rest => Drv.C15.run rest
+  | "C26" :: rest => Drv.C26.run rest
   | _ => "bad-op"
 
 def judgeLine (toks : List String) : String :=
@@ -62,6 +66,8 @@ def judgeLine (toks : List String) : String :=
   | "C17" :: rest => Drv.C17.judge rest out
   | "C35" :: rest => Drv.C35.judge rest out
   | "C32" :: rest => Drv.C32.judge rest out
+  | "C15" :: rest => Drv.C15.judge rest out
+  | "C26" :: rest => Drv.C26.judge rest out
   | _ => "bad-judge"
 
 partial def loop (h : IO.FS.Stream) (out : IO.FS.Stream) (f : List String → String) : IO Unit := do
